@@ -3,7 +3,7 @@
    terminates within the fuel the evaluator gives it.  Proofs: Proofs/InSearchProofs.v. *)
 From Coq Require Import List Bool.
 Import ListNotations.
-From Cedar Require Import Lang.Value Lang.Expr Impl.InSearch Impl.Eval Proofs.InSearchProofs.
+From Cedar Require Import Lang.Value Lang.Expr Impl.InSearch Impl.Eval Impl.Partial Proofs.InSearchProofs Proofs.ScopeProofs.
 
 (* a in b *)
 Theorem C03_in_one : forall (st : store) a b,
@@ -22,6 +22,29 @@ Theorem C03_generic : forall (id : Type) (eqb : id -> id -> bool), (forall a b, 
   exists r, entity_in_one id eqb parents fuel a b = Some r /\ (r = true <-> reach id parents a b).
 Proof. exact in_one_correct. Qed.
 
+(* the scope forms agree with the operator: the authorizer evaluates a scope through the expression scope_expr x s (compile.go scopeToNode:
+   `x == E`, `x in E`, `x in [..]`, `x is T`, `x is T in E`) with the ordinary evaluator; the partial evaluator / batch authorizer decides
+   scopes directly (partial.go partialScopeEval = Impl/Partial.v scope_holds).  The two agree on every store and every request entity ... *)
+Theorem C03_scope_forms_agree : forall en x t i s,
+  var_value en x = VEntity t i ->
+  eval en (scope_expr x s) = Ok (VBool (scope_holds (e_store en) (t, i) s)).
+Proof. exact scope_expr_eval. Qed.
+
+(* ... and both are the reachability relation *)
+Theorem C03_scope_forms_are_reachability : forall (st : store) a s,
+  scope_holds st a s = true <->
+  match s with
+  | SAll => True
+  | SEq u => a = u
+  | SIn u => reach_st st a u
+  | SInSet us => exists b, In b us /\ reach_st st a b
+  | SIs ty => fst a = ty
+  | SIsIn ty u => fst a = ty /\ reach_st st a u
+  end.
+Proof. exact scope_holds_spec. Qed.
+
+Print Assumptions C03_scope_forms_agree.
+Print Assumptions C03_scope_forms_are_reachability.
 Print Assumptions C03_in_one.
 Print Assumptions C03_in_set.
 Print Assumptions C03_generic.
